@@ -2,6 +2,8 @@ import StepModel.LazyLemmas
 import StepModel.LazyScan
 import StepModel.LazyScanFile
 import StepModel.LazyScanGaps
+import StepModel.LazyEager
+import StepModel.Props.C01
 /-!
 # C10 — the lazy loader sees the same file as the eager reader
 
@@ -402,5 +404,177 @@ example : (match loadAll true [⟨1, [], [2]⟩, ⟨2, [], [1]⟩] 3 [] [1, 2, 1
     | _ => false) = true := by decide
 
 example : deps (build [⟨1, [], [2]⟩, ⟨2, [], [1, 3]⟩, ⟨3, [], []⟩]) 1 = .ok [3, 1, 2] := by decide
+
+
+/-! ## the lazy index equals what the eager reader creates — a theorem between the two models -/
+
+section Eager
+open StepModel.P21 StepModel.P21.RLemmas StepModel.P21.Lemmas StepModel.P21.Grammar StepModel.P21.C01
+variable {F : Type}
+
+theorem toUpper_id (a : Nat) (h : (StepModel.isUpper a || StepModel.isDigit a || a == 95) = true) :
+    StepModel.toUpper a = a := by
+  have hl : StepModel.isLower a = false := by
+    unfold StepModel.isUpper StepModel.isDigit at h
+    unfold StepModel.isLower
+    simp only [Bool.or_eq_true, Bool.and_eq_true, decide_eq_true_eq, beq_iff_eq] at h
+    simp only [Bool.and_eq_false_iff, decide_eq_false_iff_not]
+    have h1 : (65 ≤ a ∧ a ≤ 90) ∨ (48 ≤ a ∧ a ≤ 57) ∨ a = 95 := by
+      rcases h with (h | h) | h
+      · exact Or.inl h
+      · exact Or.inr (Or.inl h)
+      · exact Or.inr (Or.inr h)
+    show ¬ (97 ≤ a) ∨ ¬ (a ≤ 122)
+    omega
+  simp [StepModel.toUpper, hl]
+
+theorem upperBytes_id : ∀ (l : List Nat), l.all (fun b => StepModel.isUpper b || StepModel.isDigit b || b == 95) = true →
+    upperBytes l = l := by
+  intro l
+  induction l with
+  | nil => intro _; rfl
+  | cons a t ih =>
+    intro h
+    simp only [List.all_cons, Bool.and_eq_true] at h
+    show StepModel.toUpper a :: upperBytes t = a :: t
+    rw [toUpper_id a h.1, ih h.2]
+
+/-- the scalar parameter kinds of the eager reader's `Covered` are tokens the lazy scanner passes (`LazyTok`), with the reference
+    they mention: `$`, `*`, INTEGER, entity reference, STRING of the grammar, `.ENUM.`, `"BINARY"`, REAL, NUMBER -/
+theorem C10_covered_tokens_lazy (tok : List Nat) (hs : Small tok) :
+    (tok = [36] ∨ tok = [42] ∨ isInteger tok = true ∨ isReal tok = true ∨
+      (∃ name, tok = 46 :: (name ++ [46]) ∧ name.all pw = true) ∨
+      (∃ hex, tok = 34 :: (hex ++ [34]) ∧ hex.all StepModel.isXDigit = true)) →
+    LazyTok tok (tokRefs tok) := by
+  intro h
+  have key : tok.all lplain = true → LazyTok tok (tokRefs tok) := by
+    intro hp
+    have := LazyTok.plain tok hp
+    rw [← lazyTok_refs tok [] this]; exact this
+  rcases h with rfl | rfl | h | h | ⟨name, rfl, hn⟩ | ⟨hex, rfl, hx⟩
+  · exact key (by decide)
+  · exact key (by decide)
+  · exact key (isInteger_lplain tok hs h)
+  · exact key (isReal_lplain tok hs h)
+  · apply key
+    have hsn : Small name := hs.cons.2.app.1
+    simp only [List.all_cons, List.all_append, List.all_nil, Bool.and_true, Bool.and_eq_true]
+    exact ⟨by decide, all_lplain_of _ pw_lplain' name hsn hn, by decide⟩
+  · apply key
+    have hsn : Small hex := hs.cons.2.app.1
+    simp only [List.all_cons, List.all_append, List.all_nil, Bool.and_true, Bool.and_eq_true]
+    exact ⟨by decide, all_lplain_of _ xdigit_lplain' hex hsn hx, by decide⟩
+
+/-- every parameter of the eager reader's `Covered` whose token does not start with `(` (aggregates) or a letter (typed SELECT values)
+    is a parameter the lazy scanner passes with exactly the reference it mentions: `$`, `*`, INTEGER, REAL, NUMBER, STRING, ENUMERATION /
+    BOOLEAN / LOGICAL, BINARY, entity references (also inside a SELECT).  The proof asks one thing of the real code for the reference
+    case: an id the eager reader accepts (`≤ INT_MAX`) is one the lazy scanner accepts (`≤ instanceIdMax`, regenerated) -/
+theorem C10_covered_param_lazy (env : Env F) (p : Param F) (hc : Covered env p)
+    (hs : Small (p.before ++ (p.tok ++ p.after)))
+    (hk : p.tok.head? ≠ some 40 ∧ ∀ c, p.tok.head? = some c → StepModel.isAlpha c = false) : LazyParam p := by
+  have hst : Small p.tok := hs.app.2.app.1
+  have hrefOk : ∀ ds : List Nat, ((StepModel.digitsVal ds 0 : Nat) : Int) ≤ IStream.intMax →
+      StepModel.digitsVal ds 0 ≤ instanceIdMax := by
+    intro ds h
+    have h' : ((StepModel.digitsVal ds 0 : Nat) : Int) ≤ 2147483647 := h
+    show _ ≤ 18446744073709551615
+    omega
+  cases hc with
+  | dollar a hopt hder hred before after hb ha => exact ⟨C10_covered_tokens_lazy _ hst (Or.inl rfl), hb, ha, hs⟩
+  | star a hder hred before after hb ha => exact ⟨C10_covered_tokens_lazy _ hst (Or.inr (Or.inl rfl)), hb, ha, hs⟩
+  | integer a hty hder hred tok htok hlo hhi before after hb ha =>
+    exact ⟨C10_covered_tokens_lazy _ hst (Or.inr (Or.inr (Or.inl htok))), hb, ha, hs⟩
+  | ref a tg hty hder hred ds hne hds hhi hfound before after hb ha =>
+    exact ⟨LazyTok.ref ds hne hds (hrefOk ds hhi), hb, ha, hs⟩
+  | aggrInt a hty hder hred es inner hok hin before after hb ha =>
+    exact absurd (by cases es <;> rfl) hk.1
+  | string a hty hder hred b hb before after hbf ha => exact ⟨LazyTok.string b hb, hbf, ha, hs⟩
+  | enum a ty hty het hder hred name i hne hname hfind hset before after hbf ha =>
+    exact ⟨C10_covered_tokens_lazy _ hst (Or.inr (Or.inr (Or.inr (Or.inr (Or.inl ⟨name, rfl, hname⟩))))), hbf, ha, hs⟩
+  | binary a hty hder hred hex hne hhex before after hbf ha =>
+    exact ⟨C10_covered_tokens_lazy _ hst (Or.inr (Or.inr (Or.inr (Or.inr (Or.inr ⟨hex, rfl, hhex⟩))))), hbf, ha, hs⟩
+  | real a hty hder hred tok dec v htok hden hv hnn hbuf before after hbf ha =>
+    exact ⟨C10_covered_tokens_lazy _ hst (Or.inr (Or.inr (Or.inr (Or.inl htok)))), hbf, ha, hs⟩
+  | aggr a ety hty hder hred es inner hok hin before after hb ha =>
+    exact absurd (by cases es <;> rfl) hk.1
+  | selTyped a n hty hder hred sd hsd m n0 ns hn0 hns hfind tok av hleaf sB sC hsB hsC before after hb ha =>
+    have := hk.2 n0 rfl
+    rw [hn0] at this; cases this
+  | selRef a n hty hder hred sd hsd m ds hne hds hhi hasg before after hb ha =>
+    exact ⟨LazyTok.ref ds hne hds (hrefOk ds hhi), hb, ha, hs⟩
+  | number a hty hder hred tok dec v htok hden hv hnn before after hbf ha =>
+    rcases htok with h | h
+    · exact ⟨C10_covered_tokens_lazy _ hst (Or.inr (Or.inr (Or.inr (Or.inl h)))), hbf, ha, hs⟩
+    · exact ⟨C10_covered_tokens_lazy _ hst (Or.inr (Or.inr (Or.inl h))), hbf, ha, hs⟩
+
+/-- what the lazy side asks of a record of the eager reader's covered class, all of it about the bytes of the file: the keyword is
+    upper case, the instance name is not `#0` and has at most `instanceIdDigits` significant digits, no parameter is an aggregate or a
+    typed SELECT value, and every byte is below 256 -/
+structure LazySide (rg : Rec F × List Nat) : Prop where
+  up0 : StepModel.isUpper rg.1.n0 = true
+  ups : rg.1.ns.all (fun b => StepModel.isUpper b || StepModel.isDigit b || b == 95) = true
+  pos : 0 < StepModel.digitsVal rg.1.ds 0
+  dlen : idLen (cs rg.1.ds) ≤ instanceIdDigits
+  scalar : ∀ p ∈ rg.1.ps, p.tok.head? ≠ some 40 ∧ ∀ c, p.tok.head? = some c → StepModel.isAlpha c = false
+  smp : ∀ p ∈ rg.1.ps, Small (p.before ++ (p.tok ++ p.after))
+  sm : Small (rg.1.ds ++ (rg.1.s1 ++ (rg.1.s2 ++ (rg.1.n0 :: rg.1.ns ++ (rg.1.s3 ++ rg.1.s4)))))
+  smg : Small rg.2
+
+theorem lazyRecs_of_covered (env : Env F) (rs : List (Rec F × List Nat)) (hrec : ∀ rg ∈ rs, RecCovered env rg)
+    (hlz : ∀ rg ∈ rs, LazySide rg) : LazyRecs rs := by
+  intro rg hrg
+  obtain ⟨hl, hg, _, _, _, _, hcov⟩ := hrec rg hrg
+  have h := hlz rg hrg
+  exact ⟨hl, ⟨h.up0, h.ups, h.pos, h.dlen,
+    fun p hp => C10_covered_param_lazy env p (hcov p hp) (h.smp p hp) (h.scalar p hp), h.sm⟩, hg, h.smg⟩
+
+/-- **the lazy index lists exactly the ids and keywords the eager reader loads** (`_partial`), between the two models, on the same
+    bytes.  For every file of the eager reader's file-level theorem `C01_read_file_partial` (any number of records with different ids,
+    any separator layout — blanks and comments — between any two tokens, forward and backward references) that also satisfies the lazy
+    side's conditions `LazySide`: the eager model creates one instance per record, and the lazy scanner model (on the same bytes, as
+    `Char`s) returns one index entry per record, in the same order, with the same instance id, the same entity keyword, and as forward
+    references exactly the `#n` parameter tokens of the record; the section is accepted and the counts agree.
+    Excluded inputs, spelled out: (1) what `C01_read_file_partial` excludes (aggregates of NUMBER / of aggregates / of selects, selects,
+    external mappings, entities without attributes, user-defined entities, scopes); (2) parameters that are aggregates or typed SELECT values
+    `KW(v)` — the lazy side covers the scalar kinds of `C10_covered_param_lazy`: `$`, `*`, numbers, strings, enumerations, binaries and
+    references (aggregates are covered by `C10_scan_file_gaps` on the token grammar, but not yet through this bridge); (3) keywords with lower-case letters (the eager reader folds case, the lazy scanner
+    `abort()`s — not conforming Part 21); (4) instance name `#0` and names with more than 20 significant digits; (5) bytes ≥ 256;
+    (6) the source shape before `fixes/C10-7` (`commentsRaw`): there a comment containing `'` or `/*` derails the lazy scanner
+    (replayed, corpus `layout-apostrophe-in-comment`).  Byte ranges are not part of the model's `Entry` and are not compared. -/
+theorem C10_index_equals_eager_partial (ops : FloatOps F) (lex : LexCfg) (cfg : RWCfg) (d : Dict) (strict : Bool)
+    (hskip : cfg.skipInstanceSkipsComments = true) (hcri : lex.criSkipsComments = true) (hagg : cfg.aggrSkipsComments = true)
+    (rs : List (Rec F × List Nat)) (g0 sp gE after : List Nat) (hg0 : Seps g0) (hsp : sp.all StepModel.isSpace = true) (hgE : Seps gE)
+    (hnd : (rs.map (·.1.id)).Nodup)
+    (hrec : ∀ rg ∈ rs, RecCovered { ops := ops, lex := lex, cfg := cfg, dict := d,
+                                    lookup := Mgr.lookup d ({ insts := rs.map (mkInst d) } : Mgr F) } rg)
+    (hraw : commentsRaw = true) (hlz : ∀ rg ∈ rs, LazySide rg) (hs0 : Small g0) (hssp : Small sp) :
+    ∃ res es,
+      readDataSection ops lex cfg d strict false
+        (g0 ++ renderRecs rs (RLemmas.endsec sp (gE ++ (endIso ++ 59 :: after)))) = .ok res ∧
+      scan (cs (g0 ++ renderRecs rs (RLemmas.endsec sp (gE ++ (endIso ++ 59 :: after))))) = .ok (es, true) ∧
+      es.map (fun e => ((e.id : Int), String.ofList e.kw)) =
+        res.mgr.insts.map (fun i => (i.id, ((i.parts.map (·.name)).head?).getD "")) ∧
+      es.map (·.refs) = rs.map (fun rg => paramsRefs rg.1.ps) ∧
+      es.length = res.created := by
+  obtain ⟨res, hres, hinsts, _, _, _, hcr, _⟩ :=
+    C01_read_file_partial ops lex cfg d strict hskip hcri hagg rs g0 sp gE after hg0 hsp hgE hnd hrec
+  have hlz' : LazyRecs rs := lazyRecs_of_covered _ rs hrec hlz
+  refine ⟨res, rs.map (fun rg => recEntry rg.1), hres, scan_recs hraw rs hlz' g0 sp _ hg0 hs0 hsp hssp, ?_, ?_, ?_⟩
+  · rw [hinsts]
+    simp only [List.map_map]
+    apply List.map_congr_left
+    intro rg hrg
+    have hl := hlz rg hrg
+    simp only [Function.comp, recEntry, finInst, Rec.id, Rec.name, List.map_cons, List.map_nil, List.head?_cons, Option.getD_some]
+    have hup : upperBytes (rg.1.n0 :: rg.1.ns) = rg.1.n0 :: rg.1.ns := by
+      apply upperBytes_id
+      simp only [List.all_cons, Bool.and_eq_true]
+      exact ⟨by simp [hl.up0], hl.ups⟩
+    rw [hup]
+    rfl
+  · simp [List.map_map, Function.comp_def, recEntry]
+  · rw [hcr]; simp
+
+end Eager
 
 end StepModel.Lazy
